@@ -1,3 +1,454 @@
+(* C19 — lemmas about the model of omml_to_latex. *)
+From Coq Require Import ZArith List Bool Lia ZifyBool.
 From S2T Require Import Lib.PyStr C19.Model.
-From Coq Require Import List NArith Bool Lia.
 Import ListNotations.
+Open Scope N_scope.
+
+(* ------------------------------------------------------------------ induction principle for the nested type *)
+Section OmmlInd.
+  Variable P : omml -> Prop.
+  Hypothesis H : forall tag attrs text cs, Forall P cs -> P (Node tag attrs text cs).
+  Fixpoint omml_ind' (t : omml) : P t :=
+    match t with
+    | Node tag attrs text cs =>
+      H tag attrs text cs
+        ((fix go (l : list omml) : Forall P l :=
+            match l with [] => Forall_nil P | c :: r => Forall_cons c (omml_ind' c) (go r) end) cs)
+    end.
+End OmmlInd.
+
+(* ------------------------------------------------------------------ small list facts *)
+Lemma chars_app a b : chars (a ++ b) = chars a ++ chars b.
+Proof. apply map_app. Qed.
+Lemma chars_lab o x : chars (lab o x) = x.
+Proof. unfold chars, lab. rewrite map_map. simpl. apply map_id. Qed.
+Lemma chars_lit x : chars (lit x) = x.
+Proof. apply chars_lab. Qed.
+
+Lemma join_cons {A} (sep : list A) x r :
+  join sep (x :: r) = x ++ match r with [] => [] | _ => sep ++ join sep r end.
+Proof. destruct r; simpl; [rewrite app_nil_r|]; reflexivity. Qed.
+
+Lemma join_cons_l (sep x : lstr) (r : list lstr) :
+  join sep (x :: r) = x ++ match r with [] => [] | _ => sep ++ join sep r end.
+Proof. destruct r; simpl; [rewrite app_nil_r|]; reflexivity. Qed.
+
+Lemma forallb_rev {A} (f : A -> bool) l : forallb f (rev l) = forallb f l.
+Proof.
+  destruct (forallb f l) eqn:E.
+  - rewrite forallb_forall in *. intros x Hx. apply E. apply in_rev. exact Hx.
+  - destruct (forallb f (rev l)) eqn:E2; [|reflexivity].
+    rewrite forallb_forall in E2. assert (forallb f l = true); [|congruence].
+    apply forallb_forall. intros x Hx. apply E2. apply in_rev. rewrite rev_involutive. exact Hx.
+Qed.
+
+(* str.strip keeps a contiguous middle part and removes only whitespace *)
+Lemma strip_decomp T l :
+  exists a b, l = a ++ strip_l T l ++ b /\ forallb (is_ws T) a = true /\ forallb (is_ws T) b = true.
+Proof.
+  unfold strip_l, lstrip_l.
+  exists (takeWhile (is_ws T) l), (rev (takeWhile (is_ws T) (rev (dropWhile (is_ws T) l)))).
+  split; [|split].
+  - rewrite <- rev_app_distr, takeWhile_dropWhile, rev_involutive, takeWhile_dropWhile. reflexivity.
+  - apply takeWhile_all.
+  - rewrite forallb_rev. apply takeWhile_all.
+Qed.
+
+Lemma strip_empty_ws T l : strip_l T l = [] -> forallb (is_ws T) l = true.
+Proof.
+  intro E. destruct (strip_decomp T l) as (a & b & Hl & Ha & Hb). rewrite E in Hl. simpl in Hl.
+  rewrite Hl, forallb_app, Ha, Hb. reflexivity.
+Qed.
+
+Lemma nonempty_false {A} (l : list A) : nonempty l = false -> l = [].
+Proof. destruct l; [reflexivity | discriminate]. Qed.
+
+(* ------------------------------------------------------------------ depth_ok *)
+Lemma depth_app a : forall d b,
+  depth_ok d (a ++ b) = match depth_ok d a with Some d' => depth_ok d' b | None => None end.
+Proof.
+  induction a as [|c a IH]; intros d b; simpl; [reflexivity|].
+  destruct (N.eqb c 123); [apply IH|]. destruct (N.eqb c 125); [|apply IH].
+  destruct d; [reflexivity | apply IH].
+Qed.
+
+Lemma depth_mono x : forall a b, depth_ok a x = Some b -> forall k, depth_ok (k + a) x = Some (k + b)%nat.
+Proof.
+  induction x as [|c x IH]; intros a b Hd k; simpl in *.
+  - inversion Hd; reflexivity.
+  - destruct (N.eqb c 123).
+    + rewrite <- Nat.add_succ_r. apply IH. exact Hd.
+    + destruct (N.eqb c 125); [|apply IH; exact Hd].
+      destruct a as [|a]; [discriminate|]. rewrite Nat.add_succ_r. apply IH. exact Hd.
+Qed.
+
+Lemma depth_nb x : nb_str x = true -> forall d, depth_ok d x = Some d.
+Proof.
+  induction x as [|c x IH]; intros Hn d; simpl in *; [reflexivity|].
+  apply andb_true_iff in Hn as [Hc Hx]. unfold nb in Hc. apply andb_true_iff in Hc as [H1 H2].
+  apply negb_true_iff in H1, H2. rewrite H1, H2. apply IH. exact Hx.
+Qed.
+
+Definition DS (n n' : nat) (x : str) : Prop := forall k, depth_ok (k + n) x = Some (k + n')%nat.
+
+Lemma DS_nil n : DS n n [].
+Proof. intro k. reflexivity. Qed.
+Lemma DS_app n n1 n2 a b : DS n n1 a -> DS n1 n2 b -> DS n n2 (a ++ b).
+Proof. intros Ha Hb k. rewrite depth_app, Ha. apply Hb. Qed.
+Lemma DS_nb n x : nb_str x = true -> DS n n x.
+Proof. intros Hx k. apply depth_nb. exact Hx. Qed.
+Lemma DS_open n : DS n (S n) [123].
+Proof. intro k. simpl. rewrite Nat.add_succ_r. reflexivity. Qed.
+Lemma DS_close n : DS (S n) n [125].
+Proof. intro k. rewrite Nat.add_succ_r. reflexivity. Qed.
+Lemma DS_shift e n n' x : DS n n' x -> DS (e + n) (e + n') x.
+Proof. intros Hx k. rewrite !Nat.add_assoc. apply Hx. Qed.
+Lemma DS_shift_r e n n' x : DS n n' x -> DS (n + e) (n' + e) x.
+Proof. intros Hx. rewrite (Nat.add_comm n e), (Nat.add_comm n' e). apply DS_shift. exact Hx. Qed.
+Lemma DS_S n n' x : DS n n' x -> DS (S n) (S n') x.
+Proof. apply (DS_shift 1). Qed.
+Lemma DS_closed x n : depth_ok 0 x = Some O -> DS n n x.
+Proof. intros Hx k. pose proof (depth_mono x 0 0 Hx (k + n)) as Hm. rewrite !Nat.add_0_r in Hm. exact Hm. Qed.
+Lemma DS_unique n n1 n2 x : DS n n1 x -> DS n n2 x -> n1 = n2.
+Proof. intros H1 H2. specialize (H1 O). specialize (H2 O). simpl in *. congruence. Qed.
+Lemma DS_split n n' a b : DS n n' (a ++ b) -> exists m, DS n m a /\ DS m n' b.
+Proof.
+  intro Hab. pose proof (Hab O) as H0. simpl in H0. rewrite depth_app in H0.
+  destruct (depth_ok n a) as [m|] eqn:Ea; [|discriminate]. exists m. split.
+  - intro k. apply depth_mono. exact Ea.
+  - intro k. specialize (Hab k). rewrite depth_app in Hab.
+    rewrite (depth_mono a n m Ea k) in Hab. exact Hab.
+Qed.
+(* opening / closing literals *)
+Lemma DS_lit_open n x : nb_str x = true -> DS n (S n) (x ++ [123]).
+Proof. intro Hx. eapply DS_app; [apply DS_nb; exact Hx | apply DS_open]. Qed.
+
+(* whitespace is never a brace (from wf), so strip does not change the depth profile *)
+Section Bal.
+  Variable T : tables.
+  Hypothesis WF : wf T = true.
+
+  Lemma wf_parts :
+    forallb (fun kv => value_ok T (snd kv)) (greek T) = true
+    /\ forallb (fun kv => value_ok T (snd kv)) (op_map T) = true
+    /\ forallb (fun kv => value_ok T (snd kv)) (accent_map T) = true
+    /\ forallb (fun kv => value_ok T (snd kv) && nb_str (fst kv)) (func_map T) = true
+    /\ forallb (open_ok T) (open_brackets T) = true
+    /\ forallb (fun c => negb (mem_N c (spaces T))) [92; 94; 95; 123; 125] = true.
+  Proof. unfold wf in WF. repeat (apply andb_true_iff in WF as [WF ?]). repeat split; assumption. Qed.
+
+  Lemma vis c : In c [92; 94; 95; 123; 125] -> mem_N c (spaces T) = false.
+  Proof.
+    intro Hc. destruct wf_parts as (_ & _ & _ & _ & _ & Hs).
+    rewrite forallb_forall in Hs. apply negb_true_iff. apply Hs. exact Hc.
+  Qed.
+
+  Lemma mem_N_In x l : mem_N x l = true <-> In x l.
+  Proof.
+    induction l as [|y l IH]; simpl; [split; [discriminate | tauto]|].
+    rewrite orb_true_iff, IH, N.eqb_eq. split; intros [H|H]; auto.
+  Qed.
+
+  Lemma ws_nb l : forallb (is_ws T) l = true -> nb_str (chars l) = true.
+  Proof.
+    induction l as [|c l IH]; simpl; [reflexivity|]. intro H. apply andb_true_iff in H as [Hc Hl].
+    rewrite (IH Hl), andb_true_r. unfold is_ws in Hc. unfold nb.
+    destruct (N.eqb (snd c) 123) eqn:E1.
+    { apply N.eqb_eq in E1. rewrite E1, vis in Hc; [discriminate | simpl; tauto]. }
+    destruct (N.eqb (snd c) 125) eqn:E2; [|reflexivity].
+    apply N.eqb_eq in E2. rewrite E2, vis in Hc; [discriminate | simpl; tauto].
+  Qed.
+
+  Lemma DS_strip n n' l : DS n n' (chars l) -> DS n n' (chars (strip_l T l)).
+  Proof.
+    intro Hl. destruct (strip_decomp T l) as (a & b & E & Ha & Hb).
+    rewrite E, !chars_app in Hl. intro k. specialize (Hl k).
+    rewrite depth_app, (depth_nb _ (ws_nb a Ha)), depth_app in Hl.
+    destruct (depth_ok (k + n) (chars (strip_l T l))) as [d|]; [|discriminate].
+    rewrite (depth_nb _ (ws_nb b Hb)) in Hl. exact Hl.
+  Qed.
+
+  (* ---------------- lone_ok *)
+  Lemma lone_nb x : nb_str x = true -> lone_ok T x = true.
+  Proof.
+    intro Hx. unfold lone_ok. apply orb_true_iff. left. apply negb_true_iff.
+    destruct (existsb (N.eqb 123) x) eqn:E; [|reflexivity].
+    apply existsb_exists in E as (c & Hc & Ec). apply N.eqb_eq in Ec. subst c.
+    unfold nb_str in Hx. rewrite forallb_forall in Hx. specialize (Hx _ Hc). discriminate.
+  Qed.
+
+  Lemma lone_wit a c b : visible T c = true -> lone_ok T (a ++ c :: b) = true.
+  Proof.
+    intro Hc. unfold lone_ok. apply orb_true_iff. right. apply existsb_exists.
+    exists c. split; [apply in_or_app; right; left; reflexivity | exact Hc].
+  Qed.
+
+  Lemma lone_app a b : lone_ok T a = true -> lone_ok T b = true -> lone_ok T (a ++ b) = true.
+  Proof.
+    unfold lone_ok. rewrite !existsb_app. intros Ha Hb.
+    destruct (existsb (visible T) a); [rewrite orb_true_r; reflexivity|].
+    destruct (existsb (visible T) b); [rewrite !orb_true_r; reflexivity|].
+    rewrite orb_false_r in *. apply negb_true_iff in Ha, Hb. rewrite Ha, Hb. reflexivity.
+  Qed.
+
+  Lemma vis92 : visible T 92 = true. Proof. unfold visible. rewrite vis; [reflexivity | simpl; tauto]. Qed.
+  Lemma vis94 : visible T 94 = true. Proof. unfold visible. rewrite vis; [reflexivity | simpl; tauto]. Qed.
+  Lemma vis95 : visible T 95 = true. Proof. unfold visible. rewrite vis; [reflexivity | simpl; tauto]. Qed.
+  Lemma vis125 : visible T 125 = true. Proof. unfold visible. rewrite vis; [reflexivity | simpl; tauto]. Qed.
+
+  Lemma lone_end x : lone_ok T (x ++ [125]) = true.
+  Proof. apply lone_wit. apply vis125. Qed.
+
+  Lemma lone_strip l : lone_ok T (chars l) = true -> lone_ok T (chars (strip_l T l)) = true.
+  Proof.
+    intro Hl. destruct (strip_decomp T l) as (a & b & E & Ha & Hb).
+    unfold lone_ok in *. apply orb_true_iff in Hl as [Hl|Hl].
+    - apply orb_true_iff. left. apply negb_true_iff. apply negb_true_iff in Hl.
+      rewrite E, !chars_app, !existsb_app in Hl. apply orb_false_iff in Hl as [_ Hl].
+      apply orb_false_iff in Hl as [Hl _]. exact Hl.
+    - apply orb_true_iff. right. rewrite E, !chars_app, !existsb_app in Hl.
+      assert (Hw : forall w, forallb (is_ws T) w = true -> existsb (visible T) (chars w) = false).
+      { induction w as [|c w IH]; simpl; [reflexivity|]. intro H. apply andb_true_iff in H as [Hc Hw].
+        rewrite (IH Hw), orb_false_r. unfold visible, is_ws in *. rewrite Hc. apply andb_false_r. }
+      rewrite (Hw a Ha), (Hw b Hb), orb_false_r in Hl. exact Hl.
+  Qed.
+
+  Lemma value_ok_DS v n : value_ok T v = true -> DS n n v.
+  Proof.
+    unfold value_ok. intro Hv. apply DS_closed.
+    destruct (depth_ok 0 v) as [[|d]|]; [reflexivity | discriminate | discriminate].
+  Qed.
+  Lemma value_ok_lone v : value_ok T v = true -> lone_ok T v = true.
+  Proof. unfold value_ok. destruct (depth_ok 0 v) as [[|d]|]; [tauto | discriminate | discriminate]. Qed.
+
+  Lemma table_value {A} (f : A -> bool) k (tab : list (str * A)) v :
+    forallb (fun kv => f (snd kv)) tab = true -> assoc k tab = Some v -> f v = true.
+  Proof. intros Hf Ha. apply assoc_In in Ha. rewrite forallb_forall in Hf. apply (Hf _ Ha). Qed.
+
+  Lemma greek_char_ok c : nb c = true -> value_ok T (greek_char T c) = true.
+  Proof.
+    intro Hc. unfold greek_char. destruct (assoc [c] (greek T)) as [v|] eqn:E.
+    - destruct wf_parts as (Hg & _). exact (table_value _ _ _ _ Hg E).
+    - assert (Hn : nb_str [c] = true) by (simpl; rewrite Hc; reflexivity).
+      unfold value_ok. rewrite (depth_nb _ Hn). apply lone_nb. exact Hn.
+  Qed.
+
+  Lemma greek_DS x : nb_str x = true -> forall n, DS n n (greek_str T x).
+  Proof.
+    induction x as [|c x IH]; intros Hx n; simpl in *; [apply DS_nil|].
+    apply andb_true_iff in Hx as [Hc Hx]. eapply DS_app; [|apply IH; exact Hx].
+    apply value_ok_DS. apply greek_char_ok. exact Hc.
+  Qed.
+  Lemma greek_lone x : nb_str x = true -> lone_ok T (greek_str T x) = true.
+  Proof.
+    induction x as [|c x IH]; intro Hx; simpl in *; [reflexivity|].
+    apply andb_true_iff in Hx as [Hc Hx]. apply lone_app; [|apply IH; exact Hx].
+    apply value_ok_lone. apply greek_char_ok. exact Hc.
+  Qed.
+
+  (* ---------------- pending closers *)
+  Definition pend_ok (p : list str) : bool := forallb single_nb p.
+
+  Lemma find_sub_single c : forall hay i, find_sub [c] hay = Some i ->
+    exists a b : str, hay = (a ++ c :: b)%list /\ List.length a = i.
+  Proof.
+    induction hay as [|h hay IH]; intros i Hf; simpl in Hf; [discriminate|].
+    destruct (N.eqb c h) eqn:E.
+    - simpl in Hf. inversion Hf; subst. apply N.eqb_eq in E. subst h. exists [], hay. split; reflexivity.
+    - simpl in Hf. destruct (find_sub [c] hay) as [j|] eqn:Ej; [|discriminate]. inversion Hf; subst.
+      destruct (IH j eq_refl) as (a & b & Hh & Hl). exists (h :: a), b. split; simpl; congruence.
+  Qed.
+
+  Lemma split_at (l : lstr) a c b : chars l = a ++ c :: b ->
+    chars (firstn (List.length a) l) = a /\ chars (skipn (S (List.length a)) l) = b.
+  Proof.
+    revert l. induction a as [|x a IH]; intros l Hl; destruct l as [|y l]; simpl in *; try discriminate.
+    - inversion Hl. split; reflexivity.
+    - inversion Hl. destruct (IH l H1) as [H2 H3]. simpl in H3. split; [f_equal; assumption | assumption].
+  Qed.
+
+  Lemma close_pending_ok : forall p l n n', pend_ok p = true -> DS n n' (chars l) ->
+    let r := close_pending p l in
+    pend_ok (fst r) = true /\ DS (n + List.length p) (n' + List.length (fst r)) (chars (snd r))
+    /\ (lone_ok T (chars l) = true -> lone_ok T (chars (snd r)) = true).
+  Proof.
+    induction p as [|c p IH]; intros l n n' Hp Hl; cbn [close_pending].
+    - cbn [fst snd List.length]. split; [reflexivity|]. split; [|tauto]. rewrite !Nat.add_0_r. exact Hl.
+    - simpl in Hp. apply andb_true_iff in Hp as [Hc Hp].
+      destruct c as [|x [|y c']]; try discriminate. simpl in Hc.
+      destruct (find_sub [x] (chars l)) as [i|] eqn:Ef.
+      + destruct (find_sub_single x _ _ Ef) as (a & b & Hab & Hi). subst i.
+        destruct (split_at l a x b Hab) as [Ha Hb].
+        rewrite Hab in Hl. destruct (DS_split _ _ _ _ Hl) as (m & Hm1 & Hm2).
+        assert (Hm2' : DS m n' b).
+        { intro k. specialize (Hm2 k). simpl in Hm2. unfold nb in Hc. apply andb_true_iff in Hc as [H1 H2].
+          apply negb_true_iff in H1, H2. rewrite H1, H2 in Hm2. exact Hm2. }
+        rewrite <- Hb in Hm2'. specialize (IH (skipn (S (List.length a)) l) m n' Hp Hm2').
+        destruct (close_pending p (skipn (S (List.length a)) l)) as [p2 o] eqn:Ec. cbn [fst snd] in *.
+        destruct IH as (I1 & I2 & _). split; [exact I1|]. split.
+        * rewrite !chars_app, chars_lit, Ha. change (s "}") with [125].
+          eapply DS_app; [apply DS_shift_r; exact Hm1|].
+          eapply DS_app; [cbn [List.length]; rewrite Nat.add_succ_r; apply (DS_close (m + List.length p)) | exact I2].
+        * intros _. rewrite !chars_app, chars_lit. simpl. apply lone_wit. apply vis125.
+      + cbn [fst snd]. split; [simpl; rewrite Hc, Hp; reflexivity|]. split; [|tauto].
+        apply DS_shift_r. exact Hl.
+  Qed.
+  (* ---------------- the invariant of one processing step *)
+  Definition Inv (q q' : st) (o : lstr) : Prop :=
+    pend_ok (pend q') = true /\ lone_ok T (chars o) = true
+    /\ DS (List.length (pend q)) (List.length (pend q')) (chars o).
+
+  Definition NodeInv (rec : st -> omml -> st * lstr) (c : omml) : Prop :=
+    nobrace c = true -> forall q, pend_ok (pend q) = true -> Inv q (fst (rec q c)) (snd (rec q c)).
+
+  Lemma Inv_nil q : pend_ok (pend q) = true -> Inv q q [].
+  Proof. intro Hq. split; [exact Hq|]. split; [reflexivity | apply DS_nil]. Qed.
+
+  Lemma Inv_app q q1 q2 a b : Inv q q1 a -> Inv q1 q2 b -> Inv q q2 (a ++ b).
+  Proof.
+    intros (A1 & A2 & A3) (B1 & B2 & B3). split; [exact B1|]. rewrite chars_app.
+    split; [apply lone_app; assumption | eapply DS_app; eassumption].
+  Qed.
+
+  Lemma Inv_lab_nb q o x : pend_ok (pend q) = true -> nb_str x = true -> Inv q q (lab o x).
+  Proof.
+    intros Hq Hx. split; [exact Hq|]. rewrite chars_lab. split; [apply lone_nb; exact Hx | apply DS_nb; exact Hx].
+  Qed.
+
+  Lemma Inv_lab_val q o x : pend_ok (pend q) = true -> value_ok T x = true -> Inv q q (lab o x).
+  Proof.
+    intros Hq Hx. split; [exact Hq|]. rewrite chars_lab.
+    split; [apply value_ok_lone; exact Hx | apply value_ok_DS; exact Hx].
+  Qed.
+
+  Lemma Inv_pend q q' o : Inv q q' o -> pend_ok (pend q') = true.
+  Proof. intros (A & _). exact A. Qed.
+  Lemma Inv_DS q q' o : Inv q q' o -> DS (List.length (pend q)) (List.length (pend q')) (chars o).
+  Proof. intros (_ & _ & A). exact A. Qed.
+
+  Lemma DS_lit0 x m : depth_ok 0 x = Some m -> forall n, DS n (m + n) x.
+  Proof.
+    intros Hx n k. pose proof (depth_mono x 0 m Hx (k + n)) as Hm. rewrite Nat.add_0_r in Hm.
+    rewrite Hm. f_equal. lia.
+  Qed.
+  Lemma DS_lit1 x m : depth_ok 1 x = Some m -> forall n, DS (S n) (m + n) x.
+  Proof.
+    intros Hx n k. pose proof (depth_mono x 1 m Hx (k + n)) as Hm.
+    replace (k + S n)%nat with (k + n + 1)%nat by lia. rewrite Hm. f_equal. lia.
+  Qed.
+
+  Lemma ws_same_len q q1 o : Inv q q1 o -> strip_l T o = [] ->
+    List.length (pend q1) = List.length (pend q).
+  Proof.
+    intros I E. apply strip_empty_ws in E. apply ws_nb in E.
+    symmetry. eapply DS_unique; [apply DS_nb; exact E | apply (Inv_DS _ _ _ I)].
+  Qed.
+
+  Lemma key_len q1 q2 c : Inv q1 q2 c -> mem_str (chars (strip_l T c)) (open_brackets T) = true ->
+    List.length (pend q2) = List.length (pend q1) /\ single_nb (closer T (chars (strip_l T c))) = true.
+  Proof.
+    intros I Hk. apply mem_str_In in Hk. destruct wf_parts as (_ & _ & _ & _ & Ho & _).
+    rewrite forallb_forall in Ho. specialize (Ho _ Hk). unfold open_ok in Ho.
+    destruct (chars (strip_l T c)) as [|x [|y r]] eqn:Ek; try discriminate.
+    apply andb_true_iff in Ho as [H125 Ho]. apply negb_true_iff in H125.
+    destruct (N.eqb x 123) eqn:E123.
+    - exfalso. apply N.eqb_eq in E123. subst x. destruct I as (_ & L & _). apply lone_strip in L.
+      rewrite Ek in L. unfold lone_ok, visible in L. simpl in L. discriminate.
+    - simpl in Ho. split; [|exact Ho].
+      destruct (strip_decomp T c) as (a & b & E & Ha & Hb).
+      assert (Hn : nb_str (chars c) = true).
+      { rewrite E, !chars_app, Ek. unfold nb_str. rewrite !forallb_app.
+        fold (nb_str (chars a)). fold (nb_str (chars b)). rewrite (ws_nb a Ha), (ws_nb b Hb).
+        simpl. unfold nb. rewrite E123, H125. reflexivity. }
+      symmetry. eapply DS_unique; [apply DS_nb; exact Hn | apply (Inv_DS _ _ _ I)].
+  Qed.
+
+  (* ---------------- children helpers *)
+  Lemma all_children_cons rec c r : all_children rec (c :: r) = true -> rec c = true /\ all_children rec r = true.
+  Proof. simpl. intro H. apply andb_true_iff in H. exact H. Qed.
+
+  Lemma nobrace_children c : nobrace c = true -> all_children nobrace (ochildren c) = true.
+  Proof. destruct c as [g a x cs]. simpl. intro H. apply andb_true_iff in H as [_ H]. exact H. Qed.
+
+  Section Kids.
+    Variable rec : st -> omml -> st * lstr.
+
+    Lemma pfirst_inv name l : Forall (NodeInv rec) l -> all_children nobrace l = true ->
+      forall q, pend_ok (pend q) = true -> Inv q (fst (pfirst rec name q l)) (snd (pfirst rec name q l)).
+    Proof.
+      induction l as [|c r IH]; intros HF Hn q Hq; simpl; [apply Inv_nil; exact Hq|].
+      inversion HF as [|? ? Hc Hr]; subst. apply all_children_cons in Hn as [Hnc Hnr].
+      destruct (str_eqb (otag c) name); [apply Hc; assumption | apply IH; assumption].
+    Qed.
+
+    Lemma peach_inv l : Forall (NodeInv rec) l -> all_children nobrace l = true ->
+      forall q, pend_ok (pend q) = true -> Inv q (fst (peach rec q l)) (snd (peach rec q l)).
+    Proof.
+      induction l as [|c r IH]; intros HF Hn q Hq; simpl; [apply Inv_nil; exact Hq|].
+      inversion HF as [|? ? Hc Hr]; subst. apply all_children_cons in Hn as [Hnc Hnr].
+      specialize (Hc Hnc q Hq). destruct (rec q c) as [q1 o]. cbn [fst snd] in Hc.
+      specialize (IH Hr Hnr q1 (Inv_pend _ _ _ Hc)). destruct (peach rec q1 r) as [q2 os]. cbn [fst snd] in *.
+      eapply Inv_app; eassumption.
+    Qed.
+
+    Lemma pall_inv name sep l : nb_str sep = true -> Forall (NodeInv rec) l -> all_children nobrace l = true ->
+      forall q, pend_ok (pend q) = true ->
+      Inv q (fst (pall rec name q l)) (join (lit sep) (snd (pall rec name q l))).
+    Proof.
+      intro Hs. induction l as [|c r IH]; intros HF Hn q Hq; simpl; [apply Inv_nil; exact Hq|].
+      inversion HF as [|? ? Hc Hr]; subst. apply all_children_cons in Hn as [Hnc Hnr].
+      destruct (str_eqb (otag c) name); [|apply IH; assumption].
+      specialize (Hc Hnc q Hq). destruct (rec q c) as [q1 o]. cbn [fst snd] in Hc.
+      specialize (IH Hr Hnr q1 (Inv_pend _ _ _ Hc)). destruct (pall rec name q1 r) as [q2 os]. cbn [fst snd] in *.
+      rewrite join_cons_l. eapply Inv_app; [exact Hc|]. destruct os as [|o2 os].
+      - simpl in IH. exact IH.
+      - eapply Inv_app; [apply Inv_lab_nb; [apply (Inv_pend _ _ _ Hc) | exact Hs] | exact IH].
+    Qed.
+
+    Lemma prows_inv mr e sep l : nb_str sep = true ->
+      Forall (fun c => Forall (NodeInv rec) (ochildren c)) l -> all_children nobrace l = true ->
+      forall q, pend_ok (pend q) = true ->
+      Inv q (fst (prows rec mr e q l)) (join (lit sep) (snd (prows rec mr e q l))).
+    Proof.
+      intro Hs. induction l as [|c r IH]; intros HF Hn q Hq; simpl; [apply Inv_nil; exact Hq|].
+      inversion HF as [|? ? Hc Hr]; subst. apply all_children_cons in Hn as [Hnc Hnr].
+      destruct (str_eqb (otag c) mr); [|apply IH; assumption].
+      pose proof (pall_inv e (s " & ") (ochildren c) eq_refl Hc (nobrace_children c Hnc) q Hq) as H1.
+      destruct (pall rec e q (ochildren c)) as [q1 cells]. cbn [fst snd] in H1.
+      specialize (IH Hr Hnr q1 (Inv_pend _ _ _ H1)). destruct (prows rec mr e q1 r) as [q2 rows]. cbn [fst snd] in *.
+      rewrite join_cons_l. eapply Inv_app; [exact H1|]. destruct rows as [|o2 rows].
+      - simpl in IH. exact IH.
+      - eapply Inv_app; [apply Inv_lab_nb; [apply (Inv_pend _ _ _ H1) | exact Hs] | exact IH].
+    Qed.
+  End Kids.
+
+  (* ---------------- look-ups return nodes of the tree *)
+  Lemma find_child_nobrace name l e : find_child name l = Some e -> all_children nobrace l = true -> nobrace e = true.
+  Proof.
+    induction l as [|c r IH]; simpl; [discriminate|]. intros Hf Hn. apply andb_true_iff in Hn as [Hc Hr].
+    destruct (str_eqb (otag c) name); [inversion Hf; subst; exact Hc | apply IH; assumption].
+  Qed.
+  Lemma find2_nobrace a b l e : find2 a b l = Some e -> all_children nobrace l = true -> nobrace e = true.
+  Proof.
+    induction l as [|c r IH]; simpl; [discriminate|]. intros Hf Hn. apply andb_true_iff in Hn as [Hc Hr].
+    destruct (str_eqb (otag c) a); [|apply IH; assumption].
+    destruct (find_child b (ochildren c)) as [x|] eqn:E; [|apply IH; assumption].
+    inversion Hf; subst. eapply find_child_nobrace; [exact E | apply nobrace_children; exact Hc].
+  Qed.
+  Lemma attr_nb e k v : nobrace e = true -> assoc k (oattrs e) = Some v -> nb_str v = true.
+  Proof.
+    destruct e as [g a x cs]. simpl. intros H Ha. apply andb_true_iff in H as [H _].
+    apply andb_true_iff in H as [H _]. exact (table_value nb_str k a v H Ha).
+  Qed.
+
+  Lemma chr_val_nb pr name dflt cs o : all_children nobrace cs = true -> nb_str dflt = true ->
+    chr_val T fixed dflt (lookup_chr T fixed pr name cs) = o -> exists v, o = Some v /\ nb_str v = true.
+  Proof.
+    intros Hn Hd. unfold chr_val, lookup_chr. cbn [own_prop val_default fixed].
+    destruct (find2 (m_ns T ++ pr) (m_ns T ++ name) cs) as [e|] eqn:E.
+    - destruct (assoc (m_ns T ++ s "val") (oattrs e)) as [v|] eqn:Ev; intro; subst o.
+      + exists v. split; [reflexivity|]. eapply attr_nb; [eapply find2_nobrace; eassumption | exact Ev].
+      + exists dflt. split; [reflexivity | exact Hd].
+    - intro; subst o. exists dflt. split; [reflexivity | exact Hd].
+  Qed.
+End Bal.
